@@ -961,6 +961,14 @@ def check_C18(world, hist, pred):
                 out.append(V("C18", "passing-output-shown", "%s:%s" % (m["stream"], where), marker=m["m"], scen=m["scen"]))
                 break
     # (c) report of a failing step
+    hijacks = []
+    for e in events:
+        for d in e["did"]:
+            if d[0] == "hijack_stream":
+                # in force until behave stops the capture of that step (before the next step starts)
+                nxt = [x["seq"] for x in events if x["seq"] > e["seq"] and x["depth"] == 0 and
+                       ((x["kind"] == "step") or (x["kind"] == "hook" and x["name"] == "before_step"))]
+                hijacks.append((e["seq"], d[1], e.get("scen"), min(nxt) if nxt else 10 ** 9))
     level = LEVELS.get(cfg.get("logging_level") or "INFO", 20)
     for sid, node in sorted(idx.items()):
         if node["kind"] != "scenario" or sid in retried:
@@ -992,6 +1000,13 @@ def check_C18(world, hist, pred):
         for m in captured_markers:
             mine = m["scen"] == sid and m["seq"] <= end_seq
             present = m["m"] in msg
+            if mine and not present and any(h[1] == m["stream"] and h[0] < m["seq"] < h[3] and h[2] == sid
+                                            for h in hijacks):
+                continue        # printed into the object the step itself had put in place of the stream
+            if mine and not present and m["stream"] == "log" and any(
+                    x["kind"] == "step" and x.get("scen") == sid and x["seq"] <= m["seq"] and
+                    any(d[0] == "root_level" for d in x["did"]) for x in events):
+                continue        # a step of this scenario raised the root logger's own level before
             if mine and not present:
                 if m["stream"] == "log":
                     if LEVELS[m["level"]] < level or not log_filter_must_capture(cfg.get("logging_filter"), m.get("logger")):
@@ -1019,6 +1034,12 @@ def check_C18(world, hist, pred):
         if ncap > 1:
             out.append(V("C18", "logger-not-restored", "capture-handlers-pile-up:%d" % ncap, seq=e["seq"]))
             break
+        if expected is not None and sig != expected and not cap["log"]:
+            # without log capture behave does not touch the root logger: a level set by a step stays
+            changed = [d[1] for x in events if last_seq < x["seq"] < e["seq"] and x["kind"] == "step"
+                       for d in x["did"] if d[0] == "root_level"]
+            if changed and sig == (changed[-1], expected[1]):
+                expected = sig
         if expected is not None and sig != expected:
             between = [x for x in events if last_seq < x["seq"] < e["seq"] and x["kind"] == "step"]
             if between:
